@@ -1,2 +1,4 @@
 import CheetahModel.Properties.C03
 import CheetahModel.Properties.C02
+import CheetahModel.Properties.C01
+import CheetahModel.Properties.C08
